@@ -447,7 +447,8 @@ def _table_effects(fn):
     for c in walk_no_nested(fn):
         if not isinstance(c, ast.Call):
             continue
-        nm = (call_name(c) or "").split(".")[-1]
+        # the method name also when the receiver is an expression: (md5_dir / name).unlink()
+        nm = c.func.attr if isinstance(c.func, ast.Attribute) else (call_name(c) or "").split(".")[-1]
         for tconst, names in by_table.items():
             def mentions(e):
                 return any(isinstance(n, ast.Name) and (n.id == tconst or n.id in names) for n in ast.walk(e))
@@ -747,7 +748,46 @@ def r13_14(chk):
     chk.floor("R13.14", 2, "DELETE / UPDATE statements on single records")
 
 
+def r13_15(chk):
+    chk.rule("R13.15", "DataStoreDirectory.drop_not_completed removes only what belongs to a NOT-COMPLETED member: every file it unlinks (the record under not_completed/ and its checksum under md5/, which completed records share) is named from a member taken from self.not_completed -- inside the loop over those members, from the loop variable -- or sits under a test that the record is one of them; a path built straight from the unique_id argument deletes the checksum of a COMPLETED record of that name")
+    m = chk.repo.module(DS)
+    q = "DataStoreDirectory.drop_not_completed"
+    fn = m.func(q)
+    unlinks = [c for c in walk_no_nested(fn) if isinstance(c, ast.Call) and isinstance(c.func, ast.Attribute) and c.func.attr in ("unlink", "remove") and _is_mutation(c)]
+    if not unlinks:
+        raise AnalysisError(f"{q}: no unlink found")
+    loops = [lp for lp in walk_no_nested(fn) if isinstance(lp, ast.For) and "not_completed" in norm(lp.iter) and isinstance(lp.target, ast.Name)]
+    par = [a for a in params_of(fn) if a != "self"]
+    for c in unlinks:
+        k = key(m, q, f"{norm(c.func)} names a not-completed member")
+        lp = next((l for l in loops if any(c is x for st in l.body for x in ast.walk(st))), None)
+        ok = False
+        why = ""
+        if lp is not None:
+            # the unlinked path derives from the loop variable
+            names = {lp.target.id}
+            changed = True
+            while changed:
+                changed = False
+                for st in ast.walk(lp):
+                    if isinstance(st, ast.Assign) and len(st.targets) == 1 and isinstance(st.targets[0], ast.Name) and st.targets[0].id not in names:
+                        if any(isinstance(x, ast.Name) and x.id in names for x in ast.walk(st.value)):
+                            names.add(st.targets[0].id)
+                            changed = True
+            ok = any(isinstance(x, ast.Name) and x.id in names for x in ast.walk(c.func.value))
+            why = f"inside the loop over {norm(lp.iter)}, path derived from `{lp.target.id}`"
+        else:
+            # outside the loop: acceptable only under a test that mentions the not-completed members
+            for i in walk_no_nested(fn):
+                if isinstance(i, ast.If) and any(c is x for st in i.body for x in ast.walk(st)) and "not_completed" in norm(i.test):
+                    ok = True
+                    why = f"under `if {norm(i.test)}`"
+        chk.decide(ok, "R13.15", k, m.loc(c), why, f"`{norm(c)}` is not tied to a member of self.not_completed (path built from {par}): drop_not_completed(unique_id=<a completed record>) deletes that record's md5 file")
+    chk.floor("R13.15", 2, "record file and checksum file")
+
+
 def run(chk):
+    r13_15(chk)
     r13_14(chk)
     r13_13(chk)
     r13_12(chk)
